@@ -145,8 +145,9 @@ impl<'b> MessageBuilder<'b, '_> {
     /// This will remove all message contents and mark it as truncated.
     pub fn truncate(&mut self) {
         self.message.header.flags.set_tc(true);
+        self.message.header.counts = SectionCounts::default();
         self.offset = 0;
-        // TODO: Reset the name compressor.
+        self.compressor.truncate(0);
     }
 
     /// Append a message item.
